@@ -79,7 +79,7 @@ def fake_chains(ctx):
 
 def gen_history(rng, remote_ok):
     kinds = ['thread', 'process', 'process'] + (['remote'] if remote_ok else [])
-    h = [('add', rng.choice(kinds), 'ok') for _ in range(rng.randint(1, 3))]
+    h = ([('run', [rng.randint(0, 9)])] if rng.random() < 0.15 else []) + [('add', rng.choice(kinds), 'ok') for _ in range(rng.randint(1, 3))]
     for _ in range(rng.randint(1, 4)):
         r = rng.random()
         if r < 0.35:
@@ -315,6 +315,9 @@ def main(ctx: Ctx):
         [('add', 'process', 'ok'), ('add', 'process', 'registration-fails'), ('run', [1, 2]), ('exit', 'close')],
         [('add', 'process', 'ok'), ('add', 'process', 'ok'), ('run', [1, 2]), ('stuck', 1), ('restart', 'noforce'), ('exit', 'normal')],
         [('add', 'process', 'ok'), ('add', 'process', 'ok'), ('run', [0, 0, -1]), ('restart',), ('run', [1, 2, 4]), ('exit', 'terminate')],
+        # run() on a pool that has no usable worker (none added yet / everybody dead) returns at once - and leaves the pool usable
+        [('run', [1, 2]), ('add', 'process', 'ok'), ('run', [1, 2]), ('restart',), ('run', [3]), ('exit', 'normal')],
+        [('add', 'process', 'ok'), ('kill', 0), ('run', [1]), ('run', [2]), ('add', 'process', 'ok'), ('run', [4, 5]), ('restart',), ('exit', 'close')],
         # a restarted worker is SIGKILLed in the middle of a run (no end marker): the run must still come to an end
         [('add', 'process', 'ok'), ('add', 'process', 'ok'), ('add', 'process', 'ok'), ('restart',), ('run', [1, -2, 3]), ('exit', 'normal')],
         [('add', 'process', 'ok'), ('add', 'process', 'ok'), ('run', [5, -2]), ('exit', 'close')],
